@@ -32,9 +32,16 @@ def run_unit(spec, tier):
     elif kind == 'kani':
         import kani_units
         r = kani_units.run_kani(spec, tier)
-    elif kind == 'gk':
+    elif kind == 'callsites':
         import kani_units
-        r = kani_units.run_gk(spec, tier)
+        gk = run_unit(GK, tier)
+        data = run_unit(K_DATA, tier)
+        probes = {}
+        for h, (ok, fcs) in (data.extra.get('probes') or {}).items():
+            for prim in ('write', 'read', 'get_mut', 'get'):
+                if h.endswith('probe_%s_on_bare_buffer' % prim):
+                    probes[prim] = probes.get(prim, False) or (not ok)
+        r = kani_units.run_callsites(spec, tier, probes)
     else:
         raise SystemExit('unknown unit kind %s' % kind)
     _cache[key] = r
@@ -63,6 +70,8 @@ def relevant(pid, spec, r, f):
     fp = f.get('function_props') or []
     if fp:
         return pid in fp
+    if f.get('props') is not None:
+        return pid in f['props']
     if f.get("harness"):
         return ("::" + pid.lower() + "_") in f["harness"] or f["harness"].split("::")[-1].startswith(pid.lower() + "_") or pid in (spec.get("props") or [])
     only = spec.get("props")
@@ -115,7 +124,7 @@ def make_replay(pid, spec, r, f, tier):
                    'how': './check --replay <this file>  (rebuilds bx against /repo and replays the case through ordinary builder requests)'},
                   open(path, 'w'), indent=1)
         return path, True
-    if r.engine.startswith('kani'):
+    if r.engine.startswith('kani') or f.get('harness'):
         import kani_units
         return kani_units.make_replay(pid, spec, r, f, base)
     # Verus: look for a concrete input with bx when the failed obligation is a layout function
@@ -238,6 +247,42 @@ PROPERTIES['C18'] = {
                    'consulting the host\'s size_of/align_of fails the postcondition. The strategies read only recorded size/align (unit layout).',
     'unchecked': ['second sentence of the property (type table answers what was registered, agrees with host, JSON round trip): BTreeMap<String,_> + serde_json, outside both verifiers',
                   'add_dynamic_datum: AsRef<str> bound cannot be declared to this Verus; not under contract'],
+}
+
+GK = {'kind': 'kani', 'name': 'gk-corpus', 'crate': 'gk', 'repo_crates': ['truc', 'truc_runtime'], 'harnesses': ['::h::'],
+      'flags': ['--cbmc-args', '--memory-leak-check'], 'tier_env': 'GK_TIER', 'env': {'GK_DUMP_DIR': os.path.join(BUILD, 'gk-gen')},
+      'expect': {'.': {'covers': 'any'}}, 'min_harnesses': 40, 'timeout': 6000,
+      'functions': ['generated new / new_uninit / unpack / accessors / Drop / 4 x From / clone / clone_from of every corpus module (emitted by truc::generator::generate on this run)'],
+      'assumptions': ['corpus of definitions (quick 4 modules, thorough 6): the "all generated modules" quantifier is sampled; the generator itself (codegen, format!, itertools) is outside both verifiers',
+                      'per module each harness is straight-line over full-domain symbolic field values: complete for that module']}
+CALLSITES = {'kind': 'callsites', 'name': 'c07-callsites'}
+
+GK_EXPL = ('Real modules emitted by the real generator for a corpus of definitions built through the real builder; Kani harnesses derived from the '
+           'definitions (not from the emitted text) state the contract of each generated function with symbolic field values: ')
+PROPERTIES['C04'] = {
+    'level': 'model_checking', 'units': lambda tier: [GK],
+    'explanation': GK_EXPL + 'new(u).f()==u.f, write through f_mut changes f only, unpack returns the current values, new_uninit keeps mandatory fields and accepts later writes; stack, Box and Vec placements; capacity = published and larger.',
+    'unchecked': ['"compiled with optimisation" clause: Kani checks MIR semantics without an aliasing model (the store primitive derived its pointer from a shared reborrow; shown with Miri and repaired, see known_findings.json)'],
+}
+PROPERTIES['C05'] = {
+    'level': 'model_checking', 'units': lambda tier: [GK],
+    'explanation': GK_EXPL + 'for every adjacent pair and each of the four From forms carried fields keep their value, added fields get the supplied value, returned removed fields carry their old value; plus a chain from the first to the last variant.',
+    'unchecked': ['compiled-with-optimisation clause'],
+}
+PROPERTIES['C06'] = {
+    'level': 'model_checking', 'units': lambda tier: [GK], 'all_harnesses_count_for': ['C06'],
+    'explanation': GK_EXPL + 'ghost drop counters on token-typed fields (== 1 at end of life, == 0 while handed back / carried), CBMC double-free and memory-leak checks on Box fields, over construct / mutate / convert (4 forms) / unpack / clone / clone_from / drop.',
+    'unchecked': ['compiled-with-optimisation clause'],
+}
+PROPERTIES['C07'] = {
+    'level': 'model_checking', 'units': lambda tier: [GK, K_DATA, CALLSITES], 'all_harnesses_count_for': ['C07'],
+    'explanation': 'In-capacity / typed / not-moved-out: CBMC pointer checks on every corpus harness. Alignment: contract of read/write/get/get_mut checked with the record placed at a symbolic slot of an aligned arena and ptr::read/write replaced by alignment-asserting wrappers; probes on a bare (align 1) buffer decide which primitives require an aligned receiver; every call site of the emitted modules is classified by receiver (bare local vs field of the repr(align) record).',
+    'unchecked': ['stack placement of locals is not observable in CBMC (every object is aligned): the bare-buffer clause is decided by probe + call-site classification, which is type-directed'],
+}
+PROPERTIES['C16'] = {
+    'level': 'model_checking', 'units': lambda tier: [GK],
+    'explanation': GK_EXPL + 'clone has equal fields, mutating or dropping either side leaves the other intact, clone_from makes the target equal and destroys its previous contents exactly once.',
+    'unchecked': ['"a panic inside a field\'s clone leaks or double-drops nothing": needs unwinding, which Kani does not model'],
 }
 
 PROPERTIES['C02'] = dict(PROPERTIES['C01'])
